@@ -124,6 +124,13 @@ def run_modes(cfg, prior_name, seq, poller=None):
     pri = (PRIORS_V2 if cfg['v2'] else PRIORS_V1)[prior_name]
     a1, n1 = group_addr(cfg, 1)
     dev.rf.setbytes(a1, pri)
+    if poller and poller.startswith('runtime-state:'):
+        # what the inverter is DOING (runtime work-mode sensor 35187 on ET; its codes differ from the work-mode SETTING's)
+        # has no say in what the setters write
+        if cfg['family'] == 'ET':
+            dev.rf.set(35187, int(poller.split(':')[1]))
+            dev.rf.set(35185, int(poller.split(':')[1]))
+        poller = None
     others = None
     if poller and poller.startswith('others:'):
         # groups 2..4 hold ENABLED schedules of another kind (peak shaving, dry contact, 745 ...): their on/off byte is not
@@ -284,16 +291,19 @@ def job_e2e(j):
     for seq in seqs:
         if prior_name == 'undecodable' and seq[0][0] not in (OM.ECO_CHARGE, OM.ECO_DISCHARGE):
             continue
+        if poller and poller.startswith('runtime-state:') and not (len(seq) == 1 and seq[0][1:] in ((55, 50), (100, 100))):
+            continue
         if poller and poller.startswith('others:') and not (len(seq) == 1 and seq[0][0] in (OM.ECO_CHARGE, OM.ECO_DISCHARGE) and seq[0][1:] in ((55, 50), (100, 100))):
             continue
         if poller and poller.startswith('other-between') and not (len(seq) == 1 and seq[0][0] in (OM.ECO_CHARGE, OM.ECO_DISCHARGE)):
             continue
-        if poller and poller != 'getter-first' and not poller.startswith('other-between') and not poller.startswith('others:') and not (len(seq) == 1 and seq[0][0] in (OM.ECO_CHARGE, OM.ECO_DISCHARGE) and seq[0][1:] in ((55, 50), (9, 50))):
+        if poller and poller != 'getter-first' and not poller.startswith('other-between') and not poller.startswith('others:') and \
+                not poller.startswith('runtime-state:') and not (len(seq) == 1 and seq[0][0] in (OM.ECO_CHARGE, OM.ECO_DISCHARGE) and seq[0][1:] in ((55, 50), (9, 50))):
             continue
         vio, k = run_modes(cfg, prior_name, seq, poller)
         n += k
         for key, cause in vio:
-            kk = f"{key}/{cfg['name']}/prior:{prior_name}" + ('/after-a-getter-call' if poller == 'getter-first' else f"/another-object-reads-between:{poller.split(':', 1)[1]}" if poller and poller.startswith('other-between') else f"/groups-2-4-hold:{poller.split(':', 1)[1]}" if poller and poller.startswith('others:') else f"/while-polling:{poller.split('@')[0]}" if poller else '')
+            kk = f"{key}/{cfg['name']}/prior:{prior_name}" + ('/after-a-getter-call' if poller == 'getter-first' else f"/another-object-reads-between:{poller.split(':', 1)[1]}" if poller and poller.startswith('other-between') else f"/groups-2-4-hold:{poller.split(':', 1)[1]}" if poller and poller.startswith('others:') else f"/inverter-runtime-state:{poller.split(':', 1)[1]}" if poller and poller.startswith('runtime-state:') else f"/while-polling:{poller.split('@')[0]}" if poller else '')
             out.setdefault(kk, []).append(dict(key=kk, clause=key.split('/')[0],
                                                replay=dict(part='e2e', cfg=cfg, prior=prior_name, poller=poller,
                                                            seq=[[getattr(m, 'name', m), p, s] for m, p, s in seq]),
@@ -426,6 +436,9 @@ def run(tier, seed, rep):
             if prior == 'off':
                 for other in (PRIORS_V2 if cfg['v2'] else PRIORS_V1):
                     jobs.append((cfg, prior, f'others:{other}'))
+                if cfg['family'] == 'ET':
+                    for w in range(0, 8):
+                        jobs.append((cfg, prior, f'runtime-state:{w}'))
             if prior in ('off', 'charge'):
                 for other in (PRIORS_V2 if cfg['v2'] else PRIORS_V1):
                     jobs.append((cfg, prior, f'other-between:{other}'))
